@@ -63,3 +63,46 @@ Proof. exact correct_read_info_can_exceed. Qed.
 Example C16_trim_example :
   add_polya_info 40 [(100,200);(300,400);(500,530)] (mkp 505 (-1) 505 (-1)) = ([(100,200);(300,400)], mkp 405 (-1) 405 (-1), (1, 0)).
 Proof. vm_compute. reflexivity. Qed.
+
+(* ---- tie to the source.  gen/Extra.v is regenerated on every check (tools/translate_extra.py) from src/common.py (CigarEvent with
+        get_match_events / get_ins_del_match_events), src/polya_verification.py (the sentinel, scan direction, break test and exon test of
+        PolyAFixer.count_polya_exons / count_polyt_exons) and src/polya_finder.py (PolyAFinder defaults and search windows).
+        op_of_event, cigar_of_code, code_table, py_scan, py_count are in CigarBridgeDefs.v.  The library with the proofs is loaded inside
+        each proof, so that an edit of the source that invalidates it is reported against these theorems. *)
+From IQ.gen Require Extra.
+From IQ Require Import CigarBridgeDefs.
+(* the code -> constructor table the correspondences print pysam operations with is the value table of CigarEvent; the numeric codes of
+   Cigar2.opcode are the enum's values; every constructor is a member; is_match / is_idm are the two event classes of the source *)
+Theorem C16_cigar_codes_are_the_sources :
+  (forall c, cigar_of_code c = lookup_code c code_table) /\
+  (forall e, cigar_of_code (Extra.CE_value e) = Some (op_of_event e) /\ opcode (op_of_event e) = Extra.CE_value e) /\
+  (forall o, exists e, op_of_event e = o) /\
+  (forall e, is_match (op_of_event e) = Extra.CE_mem e Extra.CE_get_match_events /\
+             is_idm (op_of_event e) = Extra.CE_mem e Extra.CE_get_ins_del_match_events).
+Proof.
+From IQ Require CigarBridge.
+exact CigarBridge.cigar_codes_are_the_sources. Qed.
+Print Assumptions C16_cigar_codes_are_the_sources.
+(* count_polya_exons / count_polyt_exons of the model are the source's loops: same sentinel, same scan direction, same break test and
+   same fake-terminal-exon test, for every max_fake_terminal_exon_len *)
+Theorem C16_polya_exon_counts_are_the_sources : forall max_fake exons pos,
+  count_polya_exons max_fake exons pos =
+    py_count Extra.py_count_polya_sentinel Extra.py_count_polya_from_last_exon Extra.py_count_polya_break (Extra.py_count_polya_test max_fake) exons pos /\
+  count_polyt_exons max_fake exons pos =
+    py_count Extra.py_count_polyt_sentinel Extra.py_count_polyt_from_last_exon Extra.py_count_polyt_break (Extra.py_count_polyt_test max_fake) exons pos.
+Proof.
+From IQ Require CigarBridge.
+exact CigarBridge.polya_exon_counts_are_the_sources. Qed.
+Print Assumptions C16_polya_exon_counts_are_the_sources.
+(* the PolyAFinder parameters (window, need = int(window * fraction), fraction as a ratio) and the (from, to, entire) windows with which
+   find_polya_tail / find_polyt_head are instantiated in the correspondences and in props/C11.v are the source's defaults *)
+Theorem C16_finder_defaults_are_the_sources :
+  Extra.PF_window_size = 16 /\ Extra.PF_polyA_count = 12 /\
+  (QArith_base.Qnum Extra.PF_min_polya_fraction, Z.pos (QArith_base.Qden Extra.PF_min_polya_fraction)) = (3, 4) /\
+  Extra.PF_polyA_count = Qround.Qfloor (QArith_base.Qmult (QArith_base.inject_Z Extra.PF_window_size) Extra.PF_min_polya_fraction) /\
+  Extra.PF_polya_external = (2, 2 * Extra.PF_window_size, false) /\ Extra.PF_polya_internal = (4 * Extra.PF_window_size, 2, true) /\
+  Extra.PF_polyt_external = (2, 2 * Extra.PF_window_size, false) /\ Extra.PF_polyt_internal = (4 * Extra.PF_window_size, 2, true).
+Proof.
+From IQ Require CigarBridge.
+exact CigarBridge.finder_defaults_are_the_sources. Qed.
+Print Assumptions C16_finder_defaults_are_the_sources.
